@@ -40,7 +40,12 @@ func isIdentByte(c byte) bool {
 // Classify walks the AST with the model's effective schema.
 func Classify(src []byte, body *hclsyntax.Body, e *Eff, off int, path string, inDyn, unknown bool) PosClass {
 	for _, a := range body.Attributes {
-		if inRange(a.NameRange, off) || off == a.NameRange.End.Byte {
+		if off == a.NameRange.End.Byte {
+			// the typed prefix at the very end of a name that is followed by more
+			// text on its line is not defined by the property
+			return PosClass{Kind: "soundness-only", Body: body, Eff: e, Prefix: string(src[a.NameRange.Start.Byte:off]), Path: path, InDyn: inDyn, Attr: a, Unknown: unknown}
+		}
+		if inRange(a.NameRange, off) {
 			return PosClass{Kind: "attr-name", Body: body, Eff: e, Prefix: string(src[a.NameRange.Start.Byte:off]), Path: path, InDyn: inDyn, Attr: a, Unknown: unknown}
 		}
 		er := a.Expr.Range()
@@ -65,6 +70,9 @@ func Classify(src []byte, body *hclsyntax.Body, e *Eff, off int, path string, in
 		if inRange(b.TypeRange, off) || off == b.TypeRange.End.Byte {
 			if bs == nil {
 				return PosClass{Kind: "other", Path: path + "/unknown-block-type", InDyn: inDyn}
+			}
+			if off == b.TypeRange.End.Byte {
+				return PosClass{Kind: "soundness-only", Body: body, Eff: e, Prefix: string(src[b.TypeRange.Start.Byte:off]), Path: path, Block: b, BS: bs, InDyn: inDyn, Unknown: unknown}
 			}
 			return PosClass{Kind: "block-type", Body: body, Eff: e, Prefix: string(src[b.TypeRange.Start.Byte:off]), Path: path, Block: b, BS: bs, InDyn: inDyn, Unknown: unknown}
 		}
